@@ -129,15 +129,24 @@ func (c *canon) walk(v reflect.Value, depth int) {
 			c.b.WriteString("map nil")
 			return
 		}
-		type kv struct{ k, v string }
+		// keys are ordered by a rendering made on a scratch copy of the pointer numbering (so that the
+		// numbering handed out below does not depend on the map's iteration order), then keys and values
+		// are walked in that order
+		type kv struct {
+			k    string
+			key  reflect.Value
+			elem reflect.Value
+		}
 		var items []kv
 		it := v.MapRange()
 		for it.Next() {
-			kc := &canon{ids: c.ids}
+			scratch := map[unsafe.Pointer]int{}
+			for p, id := range c.ids {
+				scratch[p] = id
+			}
+			kc := &canon{ids: scratch}
 			kc.walk(it.Key(), depth+1)
-			vc := &canon{ids: c.ids}
-			vc.walk(it.Value(), depth+1)
-			items = append(items, kv{kc.b.String(), vc.b.String()})
+			items = append(items, kv{kc.b.String(), it.Key(), it.Value()})
 		}
 		sort.Slice(items, func(i, j int) bool { return items[i].k < items[j].k })
 		c.b.WriteString("map[")
@@ -145,7 +154,9 @@ func (c *canon) walk(v reflect.Value, depth int) {
 			if i > 0 {
 				c.b.WriteString(",")
 			}
-			c.b.WriteString(it.k + "=>" + it.v)
+			c.walk(it.key, depth+1)
+			c.b.WriteString("=>")
+			c.walk(it.elem, depth+1)
 		}
 		c.b.WriteString("]")
 	case reflect.Func:
